@@ -160,6 +160,83 @@ theorem putOrder_effect (db : DB) (o : Order) (h : o.WF) :
   intro n hn
   simp [DB.putOrder, DB.getOrder, Bucket.put, hn]
 
+/-! ## multi-object transactions -/
+
+/-- **`copyOrder` (the order loop of `MarkBatchComplete`) is the identity on what `SubmitOrder`/`updateOrder`
+wrote**: the staged bucket of a well-formed order is copied to the visible bucket unchanged – base bytes, TLV
+stream (re-serialised from the decoded order), min units match and, for bids, node tier – so the applied order
+reads back as the staged one (`order_roundtrip`). -/
+theorem copyOrder_id (o : Order) (h : o.WF) (dstTier : Option Bytes) (hd : o.isBid = false → dstTier = none) :
+    copyOrderRec o.kit.nonce (storeOrder o) dstTier = .ok (storeOrder o) [] := by
+  have hk : o.kit.WF := by cases o <;> exact h.1
+  have hmum : WFu64 o.kit.minUnitsMatch := hk.2.2.2.2.2.2.2.2.2.2.2.2.1
+  have hb := order_base_rt o [] hk
+  rw [List.append_nil] at hb
+  have hm := readU64_enc o.kit.minUnitsMatch [] hmum
+  rw [List.append_nil] at hm
+  have htlv : serializeOrderTlvData o.tlvProj = serializeOrderTlvData o := by
+    unfold serializeOrderTlvData; rw [orderTlvVars_tlvProj]
+  unfold copyOrderRec storeOrder
+  simp only [hm, hb, Option.getD_some, order_tlv_rt o h, htlv]
+  cases o with
+  | ask k a c => simp [Order.tlvProj, Order.isBid, hd rfl]
+  | bid k t s tk u z =>
+    have ht := readU32_enc t [] h.2.1
+    rw [List.append_nil] at ht
+    simp [Order.tlvProj, Order.isBid, ht]
+
+
+/-- **several accounts written in one transaction**: each reads back as written, every other account and all
+orders, templates and snapshots are untouched -/
+theorem addAccounts_effect (as : List Account) : ∀ (db : DB), (∀ a ∈ as, a.WF) →
+    (as.map (·.traderKey.pub)).Nodup →
+    ∃ db', db.addAccounts as = some db' ∧
+      (∀ a ∈ as, db'.account a.traderKey.pub = .ok a []) ∧
+      (∀ k, k ∉ as.map (·.traderKey.pub) → db'.account k = db.account k) ∧
+      db'.orders = db.orders ∧ db'.bidTemplates = db.bidTemplates ∧
+      db'.pendingSnapshot = db.pendingSnapshot ∧ db'.snapshots = db.snapshots := by
+  induction as with
+  | nil => intro db _ _; exact ⟨db, rfl, by simp, by simp, rfl, rfl, rfl, rfl⟩
+  | cons a as ih =>
+    intro db hwf hnd
+    simp only [List.map_cons, List.nodup_cons] at hnd
+    obtain ⟨db1, h1, hsame, hother, ho, hb, hp, hs⟩ := addAccount_effect db a (hwf a (List.mem_cons_self))
+    obtain ⟨db2, h2, hall, hrest, ho2, hb2, hp2, hs2⟩ :=
+      ih db1 (fun x hx => hwf x (List.mem_cons_of_mem _ hx)) hnd.2
+    refine ⟨db2, by simp [DB.addAccounts, h1, h2], ?_, ?_, by rw [ho2, ho], by rw [hb2, hb], by rw [hp2, hp],
+      by rw [hs2, hs]⟩
+    · intro x hx
+      rcases List.mem_cons.mp hx with rfl | hx
+      · rw [hrest _ hnd.1, hsame]
+      · exact hall x hx
+    · intro k hk
+      simp only [List.map_cons, List.mem_cons, not_or] at hk
+      rw [hrest k hk.2, hother k hk.1]
+
+/-- **several orders written in one transaction** (`UpdateOrders`, batch staging/applying): each reads back as
+written, every other order and every account is untouched -/
+theorem putOrders_effect (os : List Order) : ∀ (db : DB), (∀ o ∈ os, o.WF) →
+    (os.map (·.kit.nonce)).Nodup →
+    (∀ o ∈ os, (db.putOrders os).getOrder o.kit.nonce = .ok o []) ∧
+    (∀ n, n ∉ os.map (·.kit.nonce) → (db.putOrders os).getOrder n = db.getOrder n) ∧
+    (∀ k, (db.putOrders os).account k = db.account k) := by
+  induction os with
+  | nil => intro db _ _; exact ⟨by simp, by simp [DB.putOrders], fun _ => rfl⟩
+  | cons o os ih =>
+    intro db hwf hnd
+    simp only [List.map_cons, List.nodup_cons] at hnd
+    obtain ⟨hsame, hother, hacct⟩ := putOrder_effect db o (hwf o (List.mem_cons_self))
+    obtain ⟨hall, hrest, hacct2⟩ := ih (db.putOrder o) (fun x hx => hwf x (List.mem_cons_of_mem _ hx)) hnd.2
+    refine ⟨?_, ?_, fun k => by rw [DB.putOrders, hacct2 k, hacct k]⟩
+    · intro x hx
+      rcases List.mem_cons.mp hx with rfl | hx
+      · rw [DB.putOrders, hrest _ hnd.1, hsame]
+      · exact hall x hx
+    · intro n hn
+      simp only [List.map_cons, List.mem_cons, not_or] at hn
+      rw [DB.putOrders, hrest n hn.2, hother n hn.1]
+
+
 /-! ## the defect that was repaired -/
 
 /-- the base encoding really loses terms: a concrete well-formed ask whose projection differs -/
@@ -194,7 +271,10 @@ theorem C10_pending_blob_only_false (db : DB) (s : Snapshot) (h : s.WF) (hne : s
 
 @[reducible] def exKit0 : Kit := { Kit.new (List.replicate 32 5) with amt := 500000, units := 5, minUnitsMatch := 2 }
 @[reducible] def exKit : Kit := { exKit0 with allowedNodeIDs := [List.replicate 33 4], isPublic := true, auctionType := 1 }
-@[reducible] def exBid : Order := .bid exKit 2 20000 (some [1, 2, 3]) true false
+/-- a sidecar ticket as the real `sidecar.SerializeTicket` wrote it (taken from a harness run) -/
+@[reducible] def exTicket : Bytes :=
+  [1, 8, 11, 75, 41, 31, 225, 97, 108, 236, 2, 1, 0, 3, 1, 6, 10, 64, 11, 8, 0, 0, 0, 72, 20, 183, 31, 123, 12, 8, 0, 0, 0, 0, 61, 169, 66, 67, 13, 4, 158, 148, 221, 239, 14, 33, 3, 163, 34, 106, 206, 203, 155, 20, 207, 46, 36, 155, 125, 84, 127, 201, 122, 148, 35, 119, 172, 145, 214, 29, 125, 224, 69, 115, 204, 130, 89, 85, 70, 16, 1, 0]
+@[reducible] def exBid : Order := .bid exKit 2 20000 (some exTicket) true false
 
 @[reducible] def exMatch : Match :=
   ⟨List.replicate 32 5, witnessAsk, List.replicate 33 2, List.replicate 33 3,
@@ -213,9 +293,9 @@ example : exTx.WF := by decide
 set_option maxRecDepth 100000 in
 example : exAcct.WF := by decide
 set_option maxRecDepth 100000 in
-example : exBid.WF := by
-  show exKit.WF ∧ WFu32 2 ∧ WFu64 20000 ∧ [1, 2, 3].length < 2 ^ 48
-  decide
+theorem exTicket_canonical : ticketCanonical exTicket = true := by decide
+set_option maxRecDepth 100000 in
+example : exBid.WF := by decide
 example : witnessAsk.WF ∧ witnessAsk.baseProj ≠ witnessAsk := by decide
 set_option maxRecDepth 100000 in
 example : exSnap.WF := by decide
